@@ -44,19 +44,19 @@ Qed.
 
 Lemma get_data_ok : forall e, enc_ok e = true -> get_data current 0 e = GOk.
 Proof.
-  intros [|rs [|n]|] H; simpl in H; try discriminate; [reflexivity|].
-  apply andb_prop in H as [H Hn]. apply andb_prop in H as [H0 H1].
-  apply Z.leb_le in H0. apply Z.ltb_lt in H1. rewrite maxBlobSize_val in H1.
-  unfold get_data. cbn [v_rawsize_unchecked current negb andb].
-  assert (E1 : (rs <? 0) = false) by (apply Z.ltb_ge; lia).
-  assert (E2 : (rs >=? maxBlobSize) = false) by (rewrite maxBlobSize_val; apply geb_false; lia).
-  rewrite E1, E2. cbn [orb]. unfold minRead.
-  rewrite (wrap32_small (rs + 512)) by lia.
-  assert (Hq : 0 <= Z.quot (rs + 512) 10 <= rs + 512).
-  { split; [apply Z.quot_pos; lia|]. apply Z.quot_le_upper_bound; lia. }
-  rewrite (wrap32_small (rs + 512 + Z.quot (rs + 512) 10)) by lia.
-  assert (E3 : (rs + 512 + Z.quot (rs + 512) 10 <? 0) = false) by (apply Z.ltb_ge; lia).
-  rewrite E3, andb_false_r. rewrite Hn. reflexivity.
+  intros [|rs [|n|n]|] H; simpl in H; try discriminate; [reflexivity| |].
+  all: apply andb_prop in H as [H Hn]; apply andb_prop in H as [H0 H1];
+    apply Z.leb_le in H0; apply Z.ltb_lt in H1; rewrite maxBlobSize_val in H1;
+    unfold get_data; cbn [v_rawsize_unchecked v_trailing_spins current negb andb];
+    assert (E1 : (rs <? 0) = false) by (apply Z.ltb_ge; lia);
+    assert (E2 : (rs >=? maxBlobSize) = false) by (rewrite maxBlobSize_val; apply geb_false; lia);
+    rewrite E1, E2; cbn [orb]; unfold minRead;
+    rewrite (wrap32_small (rs + 512)) by lia;
+    assert (Hq : 0 <= Z.quot (rs + 512) 10 <= rs + 512)
+      by (split; [apply Z.quot_pos; lia|apply Z.quot_le_upper_bound; lia]);
+    rewrite (wrap32_small (rs + 512 + Z.quot (rs + 512) 10)) by lia;
+    assert (E3 : (rs + 512 + Z.quot (rs + 512) 10 <? 0) = false) by (apply Z.ltb_ge; lia);
+    rewrite E3, andb_false_r; rewrite Hn; reflexivity.
 Qed.
 
 Lemma get_data_no_panic : forall cap0 e, get_data current cap0 e <> GPanic.
@@ -72,7 +72,19 @@ Proof.
   { split; [apply Z.quot_pos; lia|]. apply Z.quot_le_upper_bound; lia. }
   rewrite (wrap32_small (rs + 512 + Z.quot (rs + 512) 10)) by lia.
   assert (E3 : (rs + 512 + Z.quot (rs + 512) 10 <? 0) = false) by (apply Z.ltb_ge; lia).
-  rewrite E3, andb_false_r. destruct z as [|n]; [discriminate|]. destruct (n =? rs); discriminate.
+  rewrite E3, andb_false_r. cbn [v_trailing_spins current].
+  destruct z as [|n|n]; [discriminate| |]; destruct (n =? rs); discriminate.
+Qed.
+
+(* ... and never hangs: the inflater returns whatever follows the zlib stream *)
+Lemma get_data_no_hang : forall cap0 e, get_data current cap0 e <> GHang.
+Proof.
+  intros cap0 [|rs z|]; unfold get_data; try discriminate.
+  cbn [v_rawsize_unchecked v_trailing_spins current negb andb].
+  destruct ((rs <? 0) || (rs >=? maxBlobSize)); [discriminate|].
+  destruct ((cap0 <? wrap32 (rs + minRead)) &&
+            (wrap32 (wrap32 (rs + minRead) + Z.quot (wrap32 (rs + minRead)) 10) <? 0)); [discriminate|].
+  destruct z as [|n|n]; [discriminate| |]; destruct (n =? rs); discriminate.
 Qed.
 
 Lemma get_data_bad : forall e, enc_bad e = true -> get_data current 0 e = GErr.
@@ -85,9 +97,9 @@ Proof.
   destruct ((0 <? wrap32 (rs + minRead)) &&
             (wrap32 (wrap32 (rs + minRead) + Z.quot (wrap32 (rs + minRead)) 10) <? 0)) eqn:E3;
     [exfalso; apply Hnp; reflexivity|].
-  destruct z as [|n]; [reflexivity|]. cbn [enc_bad] in H.
-  cbn [orb] in H.
-  apply negb_true_iff in H. rewrite H. reflexivity.
+  cbn [v_trailing_spins current].
+  destruct z as [|n|n]; [reflexivity| |]; cbn [enc_bad] in H; cbn [orb] in H;
+    apply negb_true_iff in H; rewrite H; reflexivity.
 Qed.
 
 (* ---- readFileBlock on a frame whose three segments are what prefix and datasize say ---- *)
